@@ -37,6 +37,10 @@ CHECKS = {
          "Exploration: the ordered sequence of (marker, arguments) host calls of each generated program equals the sequence obtained by left-to-right, short-circuit, guard-order evaluation in the reference interpreter.",
          "Trusts the reference interpreter's evaluation order, written from the property statement.",
          "DESIGN.md §4 C08"),
+ "C13": ("generated module trees with shared name pools and probe functions holding references of every form; independent resolver (model) vs compiled behaviour; in-memory vs on-disk differential; get_function by module path",
+         "Exploration: for each generated tree the resolver written from the stated lookup rules predicts the tag every probe returns or that compilation fails; the tree is compiled from FileSpec and from a temp directory and both must agree with the model.",
+         "Tree depth <= 3; import aliases distinct per scope; pkg/super only at the start of paths (documented grammar).",
+         "DESIGN.md §4 C13"),
  "C14": ("random constant/function reference graphs over 1-3 modules in random declaration order, initialisers tagged through a host effect marker; invariants over the compile-time log (once, dependency order, empty on rejection) + values vs a graph model",
          "Exploration: generated reference graphs (acyclic, with an injected cycle, or with a transitive context use); the host-call log produced during compile must contain each constant's tag exactly once and after its dependencies (closed through functions); cyclic/context graphs must be rejected before anything is evaluated.",
          "Graphs of at most 14 items; function-only recursion discarded.",
@@ -53,6 +57,10 @@ CHECKS = {
          "Exploration: every built-in of the default runtime is applied by a compiled script to generated Unicode strings, boundary indices, counts, float bit patterns, addresses and prefix lengths, and the result is compared with the documented Rust operation.",
          "Oracle shares std with the delegating methods (checks binding + the views' hand-written index arithmetic); contested line-slice corner and StringLines.get not judged.",
          "DESIGN.md §4 C17"),
+ "C18": ("generated libraries (programmatic registration API, random item trees and orders, 1-2 add calls, optional injected defect) vs a registry model predicting Ok/Err; reachability script calling every registered item by its declared path and by root-level use aliases",
+         "Exploration / model-based: the real Runtime::add outcome must equal the model's for every add call and must never panic; after success every function, constant, method and static method is called from a generated script and must return its identity tag; undeclared paths must not compile.",
+         "Closure signatures come from 5 shapes over 6 marker types; uses of missing paths and aliases equal to a declared name are outside the stated property and discarded; uses inside modules excluded while C18-F4 is open.",
+         "DESIGN.md §4 C18"),
  "C20": ("generated non-recursive programs; differential between the LIR evaluator (hook verif_eval) and the JIT code built from the same lowered IR; evaluator panics accepted as 'stops loudly'",
          "Exploration / differential: evaluator and compiled code start from the same lowered IR; whenever the evaluator completes, return value and host-call log must match the compiled code.",
          "About half of the generated programs make the evaluator stop loudly (unsupported features); reported in evidence classes.",
